@@ -92,6 +92,34 @@ func (se *SignalEnum) verifyValueName(name string) error {
 	return nil
 }
 
+// sizeFromMaxIndex returns the size in bits of the enum
+// when the given value is its max index.
+func (se *SignalEnum) sizeFromMaxIndex(maxIndex int) int {
+	maxIdxSize := calcSizeFromValue(maxIndex)
+	if se.minSize > maxIdxSize {
+		return se.minSize
+	}
+	return maxIdxSize
+}
+
+// modifySize makes the layouts holding the signals that reference the enum
+// ready for a change of the enum size by the given amount.
+// It must be called before the size of the enum is actually changed.
+func (se *SignalEnum) modifySize(amount int) error {
+	if amount == 0 {
+		return nil
+	}
+
+	for _, tmpSig := range se.refs.entries() {
+		if err := tmpSig.modifySize(amount); err != nil {
+			se.parErrID = tmpSig.entityID
+			return err
+		}
+	}
+
+	return nil
+}
+
 func (se *SignalEnum) verifyValueIndex(index int) error {
 	if err := se.valueIndexes.verifyKeyUnique(index); err != nil {
 		return err
@@ -99,7 +127,7 @@ func (se *SignalEnum) verifyValueIndex(index int) error {
 
 	if index > se.maxIndex {
 		prevSize := se.GetSize()
-		newSize := calcSizeFromValue(index)
+		newSize := se.sizeFromMaxIndex(index)
 
 		for _, tmpSig := range se.refs.entries() {
 			// as in signal.modifySize, a multiplexed signal lives in the groups
@@ -238,6 +266,15 @@ func (se *SignalEnum) AddValue(value *SignalEnumValue) error {
 
 	index := value.index
 	if index > se.maxIndex {
+		// the signals referencing the enum grow: push the signals that follow them
+		if err := se.modifySize(se.sizeFromMaxIndex(index) - se.GetSize()); err != nil {
+			addValErr.Err = &ValueIndexError{
+				Index: index,
+				Err:   err,
+			}
+			return se.errorf(addValErr)
+		}
+
 		se.maxIndex = index
 	}
 
@@ -314,11 +351,7 @@ func (se *SignalEnum) GetValue(valueEntityID EntityID) (*SignalEnumValue, error)
 
 // GetSize returns the size of the [SignalEnum] in bits.
 func (se *SignalEnum) GetSize() int {
-	maxIdxSize := calcSizeFromValue(se.maxIndex)
-	if se.minSize > maxIdxSize {
-		return se.minSize
-	}
-	return maxIdxSize
+	return se.sizeFromMaxIndex(se.maxIndex)
 }
 
 // MaxIndex returns the highest index of the enum values of the [SignalEnum].
